@@ -605,6 +605,14 @@ class WalletWorld:
                     ok2, t2 = self.observe(lambda: h.transaction(txid))
                     if ok2 and t2 is None:
                         deleted.append(txid)
+        if not ok:
+            # an interrupted delete may already be durable: follow what the wallet actually forgot
+            h2 = self.H(wi)
+            for txid in sorted(wi.sent):
+                ok2, t2 = self.observe(lambda: h2.transaction(txid))
+                if ok2 and t2 is None:
+                    deleted.append(txid)
+                    self.w.probe('delete_interrupted_but_durable')
         for txid in deleted:
             # the wallet was told to forget this transaction: its inputs are no longer "sent" for the wallet
             for op_, (tx_, _) in list(wi.acked_spent.items()):
